@@ -335,6 +335,10 @@ Call(e) ==
                        want == liveWant(c2) IN
                    Fail((IF c2 = c THEN {"C08"} ELSE {"C08", "C11"})
                           \cup (IF Len(got) = 1 /\ Len(want) = 1 /\ got[1].op # want[1].op THEN {"C05"} ELSE {})
+                          \* the event of a write that gives a tombstone a body still shows xattrs of the tombstone (C05: every
+                          \* observer agrees that the new document has none of them)
+                          \cup (IF Len(got) = 1 /\ Len(want) = 1 /\ IsTomb(pre) /\ want[1].op = "mut"
+                                   /\ (got[1].xa # want[1].xa \/ got[1].xf # want[1].xf) THEN {"C05"} ELSE {})
                           \cup (IF Len(got) = 1 /\ Len(want) = 1 /\ got[1].rev # want[1].rev THEN {"C17"} ELSE {}),
                         e, <<"live", c2, Class(pre)>>, BriefEvs(want), BriefEvs(got))})
         \* ---- events of one collection reach a feed in increasing CAS order (C08): the event of a regular write carries a
